@@ -5,6 +5,9 @@ import Mathlib.Algebra.Order.Chebyshev
 import Mathlib.Algebra.BigOperators.Intervals
 import Mathlib.Tactic.Linarith
 import Mathlib.Tactic.Ring
+import Mathlib.Algebra.BigOperators.Field
+import Mathlib.Tactic.Positivity
+import Mathlib.Tactic.FieldSimp
 /-!
 # C13 support
 
@@ -354,5 +357,93 @@ theorem cohAccum_cells (m : ℕ) (sx sy : ℕ → Vec ℝ) (nseg k : ℕ) (hk : 
     · rw [Finset.sum_range_succ, ← i2]; unfold cohStep; simp only []; rw [rdR_ofFn _ _ _ hk]
     · rw [Finset.sum_range_succ, ← i3]; unfold cohStep; simp only []
       rw [rd_mk_lt _ _ _ hk, Cx.toC_add, Cx.toC_mul, Cx.toC_conj]
+
+/-! ## small analytic facts used by `Props/C13.lean` -/
+
+theorem sum_support (n L : ℕ) (hL : L ≤ n) (g : ℕ → ℝ) :
+    ∑ m ∈ range n, (if m < L then g m else 0) = ∑ m ∈ range L, g m := by
+  rw [← Finset.sum_subset (Finset.range_subset_range.2 hL)]
+  · apply Finset.sum_congr rfl
+    intro m hm
+    rw [if_pos (mem_range.mp hm)]
+  · intro m _ hm
+    rw [if_neg (by simpa using hm)]
+
+/-- Parseval applied to the averaged two-sided periodogram -/
+theorem two_sided_sum (n M : ℕ) (hn : 0 < n) (wp : ℝ) (s : ℕ → ℕ → ℂ) :
+    ∑ j ∈ range n, (∑ i ∈ range M, normSq (dft n (s i) j) / wp) / (M : ℝ) =
+      (n : ℝ) * ((∑ i ∈ range M, ∑ m ∈ range n, normSq (s i m)) / (M : ℝ)) / wp := by
+  rw [← Finset.sum_div, Finset.sum_comm]
+  have : ∀ i ∈ range M, ∑ j ∈ range n, normSq (dft n (s i) j) / wp = (n : ℝ) * (∑ m ∈ range n, normSq (s i m)) / wp := by
+    intro i _
+    rw [← Finset.sum_div, parseval n hn]
+  rw [Finset.sum_congr rfl this, ← Finset.sum_div, ← Finset.mul_sum]
+  ring
+
+theorem normSq_add_sub_le (u v : ℂ) : |normSq (u + v) - normSq u| ≤ 2 * ‖u‖ * ‖v‖ + ‖v‖ ^ 2 := by
+  rw [Complex.normSq_add]
+  have h1 : |(u * (starRingEnd ℂ) v).re| ≤ ‖u‖ * ‖v‖ := by
+    refine (Complex.abs_re_le_norm _).trans (le_of_eq ?_)
+    rw [norm_mul, Complex.norm_conj]
+  have h2 : normSq v = ‖v‖ ^ 2 := Complex.normSq_eq_norm_sq v
+  have : normSq u + normSq v + 2 * (u * (starRingEnd ℂ) v).re - normSq u = normSq v + 2 * (u * (starRingEnd ℂ) v).re := by ring
+  rw [this, h2]
+  have h3 : 0 ≤ ‖v‖ ^ 2 := by positivity
+  rw [abs_le] at h1 ⊢
+  constructor <;> nlinarith [h1.1, h1.2]
+
+theorem mean_close (M : ℕ) (hM : 0 < M) (g : ℕ → ℝ) (c e : ℝ) (h : ∀ i < M, |g i - c| ≤ e) :
+    |(∑ i ∈ range M, g i) / (M : ℝ) - c| ≤ e := by
+  have hM' : (0 : ℝ) < (M : ℝ) := by exact_mod_cast hM
+  have e1 : (∑ i ∈ range M, g i) / (M : ℝ) - c = (∑ i ∈ range M, (g i - c)) / (M : ℝ) := by
+    rw [Finset.sum_sub_distrib, Finset.sum_const, card_range, nsmul_eq_mul]
+    field_simp
+  rw [e1, abs_div, abs_of_pos hM', div_le_iff₀ hM']
+  calc |∑ i ∈ range M, (g i - c)| ≤ ∑ i ∈ range M, |g i - c| := Finset.abs_sum_le_sum_abs _ _
+    _ ≤ ∑ _i ∈ range M, e := Finset.sum_le_sum (fun i hi => h i (mem_range.mp hi))
+    _ = e * M := by rw [Finset.sum_const, card_range, nsmul_eq_mul]; ring
+
+/-- the transform of segment `[t1, t1+L)` of the real sinusoid `a·e^{2πi k0 u/n} + conj(a)·e^{-2πi k0 u/n}` under the window `w`,
+at the tone's own bin: the tone's term carries the window sum, the negative-frequency image carries `S(2k0)` -/
+theorem dft_real_tone (n L : ℕ) (hL : L ≤ n) (a : ℂ) (k0 t1 : ℕ) (w : ℕ → ℝ) :
+    dft n (fun m => if m < L then (a * (ω n (k0 * (t1 + m)))⁻¹ + (starRingEnd ℂ) a * ω n (k0 * (t1 + m))) * (w m : ℂ) else 0) k0 =
+      a * (ω n (k0 * t1))⁻¹ * ((∑ m ∈ range L, w m : ℝ) : ℂ) +
+      (starRingEnd ℂ) a * ω n (k0 * t1) * ∑ m ∈ range L, (w m : ℂ) * (ω n (k0 * m) * ω n (m * k0)) := by
+  rw [dft_support n L hL, ← tone_sum_self n L k0 w, Finset.mul_sum, Finset.mul_sum, ← Finset.sum_add_distrib]
+  apply Finset.sum_congr rfl
+  intro m _
+  rw [Nat.mul_add, ω_add, mul_inv]
+  ring
+
+/-- the complex amplitude of `A·cos(θ + φ)`: `a = (A/2)·e^{iφ}`, with `2|a|² = A²/2` -/
+noncomputable def cosAmp (A φ : ℝ) : ℂ := ((A / 2 : ℝ) : ℂ) * exp ((φ : ℂ) * I)
+
+theorem cosAmp_power (A φ : ℝ) : 2 * normSq (cosAmp A φ) = A ^ 2 / 2 := by
+  unfold cosAmp
+  rw [map_mul, Complex.normSq_ofReal, Complex.normSq_eq_norm_sq, Complex.norm_exp_ofReal_mul_I]
+  ring
+
+theorem cos_exp (A θ φ : ℝ) :
+    ((A * Real.cos (θ + φ) : ℝ) : ℂ) =
+      cosAmp A φ * exp ((θ : ℂ) * I) + (starRingEnd ℂ) (cosAmp A φ) * exp (-((θ : ℂ) * I)) := by
+  unfold cosAmp
+  rw [map_mul, Complex.conj_ofReal, ← Complex.exp_conj, map_mul, Complex.conj_ofReal, Complex.conj_I,
+    mul_assoc, mul_assoc, ← Complex.exp_add, ← Complex.exp_add, Complex.ofReal_mul, Complex.ofReal_cos, Complex.cos]
+  have e1 : (φ : ℂ) * I + (θ : ℂ) * I = ((θ + φ : ℝ) : ℂ) * I := by push_cast; ring
+  have e2 : (φ : ℂ) * -I + -((θ : ℂ) * I) = -(((θ + φ : ℝ) : ℂ)) * I := by push_cast; ring
+  rw [e1, e2]
+  push_cast
+  ring
+
+/-- a real sinusoid at a bin frequency is the sum of the two exponentials `welchR_tone_bound` speaks about -/
+theorem cos_as_exponentials (n k0 u : ℕ) (A φ : ℝ) :
+    ((A * Real.cos (2 * Real.pi * ((k0 * u : ℕ) : ℝ) / (n : ℝ) + φ) : ℝ) : ℂ) =
+      cosAmp A φ * (ω n (k0 * u))⁻¹ + (starRingEnd ℂ) (cosAmp A φ) * ω n (k0 * u) := by
+  rw [cos_exp]
+  unfold ω
+  rw [← Complex.exp_neg]
+  congr 3
+  · ring
+  · ring
 
 end Dsp.C13
